@@ -235,10 +235,19 @@ def run(tier):
                 lmism += 1; ck.violation("silently-altered:array-length", "the array length literal %d is accepted and becomes %s" % (v, out), src)
         elif not (f[0].startswith("err codes=") or f[0].startswith("internal-error")):   # (the internal error beyond 2^32 elements is C10's D45)
             ck.violation(C.failure_key(f[0]), "compiler failed: " + f[0][:200], src)
-    wvals = [0, 1, (1 << 31), (1 << 32) - 1, 1 << 32, (1 << 32) + 5, 1 << 63, (1 << 64) - 1]
-    wsrcs = [("u%d" % i, "fn main() -> u8\n{\n\tvar x: usize = %d;\n\tvar y: usize = x + 1;\n\treturn: 0\n}\n" % v) for i, v in enumerate(wvals)]
+    # usize on the 32-bit target (D54, repaired): the lint and the stored value are those of the model with
+    # usize_bits = 32 (Literal.lint_on 32 / bits_of 32) in every spelling of the literal
+    wvals = [0, 1, (1 << 31), (1 << 32) - 1, 1 << 32, (1 << 32) + 5, 1 << 63, (1 << 64) - 1, 1 << 64, (1 << 127), (1 << 128) - 1]
+    wcases = []
+    for v in wvals:
+        wcases.append((str(v), "naked", "-", v))
+        wcases.append(("%dusize" % v, "suffixed", "usize", v))
+        wcases.append((hex(v), "bits", "-", v))
+        wcases.append((bin(v), "bits", "-", v))
+    wsrcs = [("u%d" % i, "fn main() -> u8\n{\n\tvar x: usize = %s;\n\tvar y: usize = x + 1;\n\treturn: 0\n}\n" % text) for i, (text, _, _, _) in enumerate(wcases)]
     impl5 = C.run_harness("ir-wasm", wsrcs, ck.work + "/wasm", timeout=600)
-    for (cid, src), v in zip(wsrcs, wvals):
+    model5 = C.run_model([("literal", "u%d" % i, "(0 %s %d %s usize 32)" % (kind, v, sfx)) for i, (_, kind, sfx, v) in enumerate(wcases)], ck.work + "/wasm")
+    for (cid, src), (text, kind, sfx, v) in zip(wsrcs, wcases):
         f = impl5.get(cid, ["missing"])
         if not f[0].startswith("ok"):
             if not f[0].startswith("err codes="): ck.violation(C.failure_key(f[0]), "compiler failed: " + f[0][:200], src)
@@ -248,7 +257,12 @@ def run(tier):
         if (v >= (1 << 32)) != linted:
             lmism += 1
             ck.violation("silently-altered:wasm-usize" if not linted else "false-lint:wasm-usize",
-                         "wasm32 target: `var x: usize = %d` %s L1142; the value stored is %s" % (v, "raises" if linted else "does not raise", stored.group(1) if stored else "?"), src)
+                         "wasm32 target: `var x: usize = %s` %s L1142; the value stored is %s" % (text, "raises" if linted else "does not raise", stored.group(1) if stored else "?"), src)
+        m = dict(x.split("=", 1) for x in model5.get(cid, "lint=? value=?").split(" "))
+        got = (str(linted).lower(), str(int(stored.group(1)) % (1 << 32)) if stored else "?")
+        if got != (m["lint"], m["value"]):
+            lmism += 1
+            ck.violation("tie-broken:literal-wasm", "wasm32 target: `var x: usize = %s`: lint %s, stored %s; Model/Literal.v (lint_on 32, bits_of 32) says lint %s, value %s" % (text, got[0], got[1], m["lint"], m["value"]), src)
     ck.log("array lengths and 32-bit usize: %d programs, %d problems" % (len(lsrcs) + len(wsrcs), lmism))
     # the tie of Model/LintWalk.v: the declarations the real pipeline hands to the linter (serialised by
     # harness/src/lintser.rs) go through the extracted traversal; its lints (code, position) must be the real ones
